@@ -4,4 +4,5 @@ use crate::interp::Interp;
 pub fn exec(it: &mut Interp, toks: &[&str], out: &mut Vec<String>) -> bool {
     crate::ext_c13::exec(it, toks, out) || crate::ext_c09::exec(it, toks, out)
         || crate::ext_c11::exec(it, toks, out)
+        || crate::ext_c04::exec(it, toks, out)
 }
